@@ -591,6 +591,43 @@ pub fn run_c05(ctx: &mut Ctx) {
             rep.count("observe_actions_checked");
         }
     }
+    // ---- observe action as read from a message: every encoding of the number, leading zero bytes included (RFC 7252 3.2)
+    {
+        let alpha = [0u8, 1, 2, 0xff];
+        for len in 0..=5usize {
+            for v in 0..(alpha.len() as u32).pow(len as u32) {
+                let mut x = v;
+                let raw: Vec<u8> = (0..len)
+                    .map(|_| {
+                        let b = alpha[(x % 4) as usize];
+                        x /= 4;
+                        b
+                    })
+                    .collect();
+                rep.eval();
+                let got = guard(|| {
+                    let mut p = Packet::new();
+                    p.add_option(CoapOption::Observe, raw.clone());
+                    p.add_option(CoapOption::Observe, alloc_vec_one());
+                    let rq = coap_lite::CoapRequest::from_packet(p, 1u8);
+                    rq.get_observe_flag()
+                });
+                let num: Option<u64> = if raw.len() <= 4 { Some(raw.iter().fold(0u64, |a, b| a << 8 | *b as u64)) } else { None };
+                let ok = match (&got, num) {
+                    (Ok(Some(Ok(ObserveOption::Register))), Some(0)) => true,
+                    (Ok(Some(Ok(ObserveOption::Deregister))), Some(1)) => true,
+                    (Ok(Some(Err(_))), Some(n)) if n > 1 => true,
+                    (Ok(Some(Err(_))), None) => true,
+                    _ => false,
+                };
+                if ok {
+                    rep.count("observe_flag_encodings_checked");
+                } else {
+                    rep.violation("observe-flag-from-message", format!("Observe value {} reads as {:?}", crate::rng::hex(&raw), got.map_err(|p| p.text())), format!("Observe = {}", crate::rng::hex(&raw)));
+                }
+            }
+        }
+    }
     rep.sample(|| "CoapOption::from(258) = NoResponse; u16::from(NoResponse) = 258".to_string());
     rep.sample(|| format!("ContentFormat::try_from(11542) = {:?}", ContentFormat::try_from(11542usize)));
     rep.sample(|| format!("MessageClass::from(0x9d) = {:?} prints {}", MessageClass::from(0x9d), MessageClass::from(0x9d)));
@@ -598,4 +635,9 @@ pub fn run_c05(ctx: &mut Ctx) {
     rep.floor("content_formats_named_match_registry", CONTENT_FORMATS.len() as u64);
     rep.floor("codes_named_match_registry", 34);
     rep.floor("first_bytes_unpacked", 4 * 4 * 9);
+}
+
+
+fn alloc_vec_one() -> Vec<u8> {
+    vec![1]
 }
